@@ -43,7 +43,7 @@ fn plan(t: Tier) -> Vec<ClassPlan> {
         Tier::Quick => 1,
         Tier::Thorough => 30,
     };
-    vec![ClassPlan { class: "generated", cases: 24_000 * k, min_len: 8, max_len: 900 }]
+    vec![ClassPlan { class: "generated", cases: 48_000 * k, min_len: 8, max_len: 900 }]
 }
 
 fn extra(ctx: &mut Ctx) {
@@ -155,7 +155,7 @@ macro_rules! stage {
         match catch(|| $body) {
             Ok(v) => v,
             Err(p) => {
-                return Outcome::fail(format!("panic:{}:{}", $name, p.location()), format!("{} panicked: {}", $name, p.0));
+                return Outcome::fail(format!("panic:{}:{}", $name, front::loc(&p)), format!("{} panicked: {}", $name, p.0));
             }
         }
     };
@@ -201,7 +201,7 @@ fn case(class: &str, tape: &[u8], _strict: bool) -> Outcome {
         Ok(o) => o,
         Err(_) => {
             let p = vcommon::last_panic_any_thread();
-            Outcome::fail(format!("harness-or-sut-panic:{}", p.location()), format!("uncaught panic on the case thread: {}", p.0))
+            Outcome::fail(format!("harness-or-sut-panic:{}", front::loc(&p)), format!("uncaught panic on the case thread: {}", p.0))
         }
     }
 }
@@ -272,11 +272,11 @@ fn check(mut input: Input, is_repo: bool, mut classes: Vec<&'static str>) -> Out
     // same diagnostics, positions aside
     let d0 = match diag_keys(&p0) {
         Ok(d) => d,
-        Err(p) => return Outcome::fail(format!("panic:render:{}", p.location()), format!("render panicked: {}", p.0)),
+        Err(p) => return Outcome::fail(format!("panic:render:{}", front::loc(&p)), format!("render panicked: {}", p.0)),
     };
     let d1 = match diag_keys(&p1) {
         Ok(d) => d,
-        Err(p) => return Outcome::fail(format!("panic:render-formatted:{}", p.location()), format!("render panicked: {}", p.0)),
+        Err(p) => return Outcome::fail(format!("panic:render-formatted:{}", front::loc(&p)), format!("render panicked: {}", p.0)),
     };
     if d0 != d1 {
         let only0: Vec<&String> = d0.iter().filter(|x| d0.iter().filter(|y| y == x).count() != d1.iter().filter(|y| y == x).count()).collect();
